@@ -147,3 +147,34 @@ theorem jsonLine_framing (L : Lib) (hL : FloatSyntax L) (ns : List Name) (ts : L
   exact ⟨b, e.symm, encJson_noCtl L hL _ _ b hb⟩
 
 end Octo.OutFmt
+
+namespace Octo.OutFmt
+open Octo Octo.Spec
+
+/-- reading a chunk without line feeds followed by a line feed yields that line and continues -/
+theorem splitLines_line (b rest cur : Bytes) (hb : ∀ x ∈ b, x ≠ 10) :
+    Json.splitLines (b ++ 10 :: rest) cur = (cur.reverse ++ b ++ [10]) :: Json.splitLines rest [] := by
+  induction b generalizing cur with
+  | nil => simp [Json.splitLines]
+  | cons c cs ih =>
+    have hc : c ≠ 10 := hb c (by simp)
+    have := ih (c :: cur) (fun x hx => hb x (by simp [hx]))
+    simp [Json.splitLines, hc, this]
+
+def concatLines : List Bytes → Bytes
+  | [] => []
+  | l :: ls => l ++ concatLines ls
+
+/-- **the output of a result is cut into its lines at the line feeds** -/
+theorem splitLines_concat : ∀ lines : List Bytes, (∀ l ∈ lines, ∃ b, l = b ++ [10] ∧ ∀ x ∈ b, x ≠ 10) →
+    Json.splitLines (concatLines lines) [] = lines
+  | [], _ => by simp [concatLines, Json.splitLines]
+  | l :: ls, h => by
+    obtain ⟨b, e, hb⟩ := h l (by simp)
+    have ih := splitLines_concat ls (fun x hx => h x (by simp [hx]))
+    subst e
+    simp only [concatLines, List.append_assoc, List.singleton_append]
+    rw [splitLines_line b _ [] hb, ih]
+    simp
+
+end Octo.OutFmt
